@@ -59,7 +59,9 @@ CheckCreate(e) ==
        THEN Fail(e, "bad-simulation-date-accepted", e.date_kind) ELSE TRUE
     /\ IF C06 /\ e.date_kind \in {"first", "interior", "last"} /\ e.expect_ok /\ e.outcome = "raised"
        THEN (IF e.date_kind = "first" /\ e.period_refusal
-             THEN Fail(e, "first-hour-simulation-refused-as-outside-the-modelled-period", e.exc)
+             THEN Fail(e, IF e.hourly_input_changed
+                          THEN "first-hour-simulation-refused-as-outside-the-modelled-period(hourly-input-replaced)"
+                          ELSE "first-hour-simulation-refused-as-outside-the-modelled-period", e.exc)
              ELSE Line("NOTE", e, "valid-simulation-refused", e.exc)) ELSE TRUE
     /\ IF C06 /\ e.outcome = "created"
        THEN /\ IF \E n \in DOMAIN e.recomputed : ~e.recomputed[n].twin_ok
